@@ -5,6 +5,7 @@ import (
 	"encoding/json"
 	"fmt"
 	"reflect"
+	"sort"
 	"strings"
 
 	"google.golang.org/protobuf/encoding/protojson"
@@ -56,7 +57,44 @@ func runC10(ctx *Ctx) {
 			}
 			c := &Case{Sub: sub, Type: string(t.Name), Bytes: hexs(b), Args: map[string]string{}}
 			if sub == "equal" || sub == "merge" || sub == "sharereset" || sub == "cross" {
-				switch rapid.IntRange(0, 2).Draw(rt, "wclass") {
+				switch rapid.IntRange(0, 3).Draw(rt, "wclass") {
+				case 3:
+					// same key set, ONE map value changed: V is redrawn with bursts of map
+					// entries, W is V plus an entry record that re-uses one of V's keys
+					c.Bytes2 = c.Bytes
+					c.Args["w"] = "copy"
+					cfgm := ctx.streamCfg(unknown, true)
+					cfgm.MapBurst = 6
+					bm := cfgm.GenStream(rt, t.Desc, 0)
+					dm, err := decodeD(t, bm)
+					if err != nil {
+						break
+					}
+					var cands []protoreflect.FieldDescriptor
+					for i := 0; i < t.Desc.Fields().Len(); i++ {
+						if fd := t.Desc.Fields().Get(i); fd.IsMap() && fd.MapValue().Message() == nil && dm.Get(fd).Map().Len() >= 2 {
+							cands = append(cands, fd)
+						}
+					}
+					if len(cands) == 0 {
+						break
+					}
+					fd := cands[rapid.IntRange(0, len(cands)-1).Draw(rt, "mvfield")]
+					var keys [][]byte
+					dm.Get(fd).Map().Range(func(k protoreflect.MapKey, _ protoreflect.Value) bool {
+						keys = append(keys, model.SpecScalar(fd.MapKey(), k.Value()))
+						return true
+					})
+					sort.Slice(keys, func(i, j int) bool { return bytes.Compare(keys[i], keys[j]) < 0 })
+					key := keys[rapid.IntRange(0, len(keys)-1).Draw(rt, "mvkey")]
+					entry := append(protowire.AppendTag(nil, 1, model.WireTypeOf(fd.MapKey().Kind())), key...)
+					entry = append(protowire.AppendTag(entry, 2, model.WireTypeOf(fd.MapValue().Kind())), model.DrawScalarPayload(rt, fd.MapValue())...)
+					w := protowire.AppendBytes(protowire.AppendTag(append([]byte{}, bm...), fd.Number(), protowire.BytesType), entry)
+					if _, err := decodeD(t, w); err != nil {
+						break
+					}
+					c.Bytes, c.Bytes2 = hexs(bm), hexs(w)
+					c.Args["w"] = "one map value changed"
 				case 0:
 					c.Bytes2 = c.Bytes
 					c.Args["w"] = "copy"
